@@ -50,7 +50,8 @@ for d in dirs:
     lines.append(f"| {sid} | {meta.get('kind', '')} | {meta.get('summary', '')[:150].replace('|', '/')} | "
                  f"{not res.get('baseline_missing')} | {verdict} | {broke} |")
 lines += ["", f"{quiet} of {len(dirs)} changes leave the checks quiet."]
-(VERIF / "benign" / "SUMMARY.md").write_text("\n".join(lines) + "\n")
+if not only:       # a filtered run does not replace the table of record
+    (VERIF / "benign" / "SUMMARY.md").write_text("\n".join(lines) + "\n")
 print("\n".join(lines[-1:]))
 for d in dirs:
     c = (results[d.name].get("checks") or {}).get(d.name.split("-")[0], {})
